@@ -3,6 +3,8 @@ package props
 import (
 	"fmt"
 	"math/rand"
+	"os"
+	"runtime/debug"
 	"sort"
 	"sync"
 	"time"
@@ -145,6 +147,7 @@ func NewContend(c *rt.C, o CtdOpt) *Contend {
 		st := e.db.N.VerifStore()
 		e.db.A.SetOnFree(func(p unsafe.Pointer, size int) {
 			if lvl := linkedAt(st, p, 100000); lvl >= 0 {
+				fmt.Fprintf(os.Stderr, "MONITOR freed-while-linked block=%p size=%d level=%d\n%s\n", p, size, lvl, debug.Stack())
 				e.pmu.Lock()
 				e.problem("C04", "freed-while-linked", "a node (block %p, %d bytes) was released while it is still linked on level %d of the structure", p, size, lvl)
 				e.pmu.Unlock()
@@ -379,7 +382,13 @@ func (e *Contend) checkpoint(where string, present int) {
 	if last := e.db.N.GetLastGCSn(); last != cur-1 {
 		e.problem("C06", "gc-frontier", "%s: all snapshots closed and GC() ran at quiescence but GetLastGCSn()=%d, currSn=%d", where, last, cur)
 	}
-	w := Walk(e.db.N.VerifStore(), nitroInsCmp(e.o.KV), nitro.ItemSize, 1<<20)
+	w := WalkLive(e.db.N.VerifStore(), nitroInsCmp(e.o.KV), nitro.ItemSize, 1<<20, e.liveFn())
+	for _, p := range w.NotLive {
+		e.problem("C04", "freed-while-linked", "%s: %s", where, p)
+	}
+	if len(w.NotLive) > 0 {
+		return
+	}
 	for _, p := range w.Problems {
 		e.problem("C14", "structure", "%s: %s", where, p)
 	}
@@ -571,4 +580,11 @@ func init() {
 		MinSigs: 50,
 		Run:     runC03,
 	})
+}
+
+func (e *Contend) liveFn() func(unsafe.Pointer) bool {
+	if e.db.A == nil {
+		return nil
+	}
+	return e.db.A.IsLive
 }
